@@ -46,6 +46,7 @@ type PExtra struct {
 	Root  uint64 `json:"root,omitempty"`
 	Slot  uint64 `json:"slot,omitempty"`
 	Epoch uint64 `json:"epoch,omitempty"`
+	Off   uint64 `json:"off,omitempty"` // clean: see Op.Off
 }
 
 type Op struct {
@@ -54,6 +55,9 @@ type Op struct {
 	Slot  uint64  `json:"slot,omitempty"`
 	Fetch *uint64 `json:"fetch,omitempty"` // lookup: what the node answers (nil = error)
 	Epoch uint64  `json:"epoch,omitempty"` // clean
+	// clean: the cleaning job runs when the clock stands at slot Off (< spe) of epoch Epoch.  The
+	// retention window starts at the first slot of Epoch-64 wherever in the epoch the clock stands.
+	Off uint64 `json:"off,omitempty"`
 	// lookup with a failing fetch: the kind of error the node/client reports, and whether the
 	// caller's own context is already cancelled.  The property says: always an error, never a slot.
 	ErrKind   string `json:"errkind,omitempty"`   // plain | canceled | deadline | wrapped-deadline | api404 | api503
@@ -288,7 +292,7 @@ func (e *env) runPar(ctx context.Context, op Op) []answer {
 		case "set":
 			acts = append(acts, mainAct{at: x.At, act: func() { e.svc.SetBlockRootToSlot(rootOf(x.Root), phase0.Slot(x.Slot)) }})
 		case "clean":
-			acts = append(acts, mainAct{at: x.At, act: func() { e.ct.SetEpoch(x.Epoch); e.cleanJob(ctx) }})
+			acts = append(acts, mainAct{at: x.At, act: func() { e.ct.SetSlot(x.Epoch*e.ct.SPE + x.Off%e.ct.SPE); e.cleanJob(ctx) }})
 		}
 	}
 	sort.SliceStable(acts, func(i, j int) bool { return acts[i].at < acts[j].at })
@@ -388,7 +392,7 @@ func runHistory(t *testing.T, h History) (outs []string, final [][2]uint64, nont
 			}
 			return App("OSlot", N(uint64(slot)))
 		case "clean":
-			ct.SetEpoch(op.Epoch)
+			ct.SetSlot(op.Epoch*h.SPE + op.Off%h.SPE)
 			e.cleanJob(ctx)
 			return "ONone"
 		case "par":
@@ -471,7 +475,9 @@ func term(t *testing.T, id uint64, h History, outs []string, final [][2]uint64) 
 
 func TestC18(t *testing.T) {
 	col := NewCollector("C18", "Check.C18",
-		"histories of 5-60 ops (block events, head events, lookups with scripted fetch outcome, groups of 2-6 overlapping lookups, cleans) over 1-8 roots; non-trivial = contains both a successful miss and a hit (sequential lookups); distinct by full history text")
+		"histories of 5-60 ops (block events, head events, lookups with scripted fetch outcome, groups of 2-6 overlapping lookups, cleans with the clock anywhere in its epoch) over 1-8 roots, and long chains (one root or more per slot over more than 64 epochs, the map outgrowing 64*spe entries, then lookups of the window's oldest roots with the node failing); non-trivial = contains both a successful miss and a hit (sequential lookups); distinct by full history text")
+	// the long-chain histories cost the checker seconds each: smaller shards, checked in parallel
+	col.ShardSize = 200
 	n := EnvInt("VERIF_N", 1000)
 	var hs []History
 	for _, h := range LoadInputs[History]("C18") {
@@ -480,7 +486,12 @@ func TestC18(t *testing.T) {
 	}
 	rng := NewRand(Seed())
 	for i := 0; i < n; i++ {
-		hs = append(hs, gen(rng.Fork()))
+		r := rng.Fork()
+		if class := longClassOf(i); class != "" {
+			hs = append(hs, genLong(r, class))
+			continue
+		}
+		hs = append(hs, gen(r))
 	}
 	for _, h := range hs {
 		for _, op := range h.Ops {
@@ -501,6 +512,9 @@ func TestC18(t *testing.T) {
 		})
 		for _, op := range h.Ops {
 			col.Count("op:" + op.Kind)
+			if op.Kind == "clean" && op.Off > 0 {
+				col.Count("clean:clock-inside-the-epoch")
+			}
 			if op.Kind == "lookup" && op.Fetch == nil {
 				col.Count("lookup:failing-fetch:" + op.ErrKind + ":" + op.CallerCtx)
 			}
@@ -514,7 +528,11 @@ func TestC18(t *testing.T) {
 		if h.StartHead != nil {
 			col.Count("starthead")
 		}
-		col.Count(fmt.Sprintf("roots:%d", len(h.Chain)))
+		if len(h.Chain) <= 8 {
+			col.Count(fmt.Sprintf("roots:%d", len(h.Chain)))
+		} else {
+			col.Count(longFamily(h))
+		}
 		id := col.NextID()
 		col.Add(Case{Term: term(t, id, h, outs, final), Nontrivial: nt, Tags: h.Tags,
 			Sample: map[string]any{"input": h, "observed": outs, "final": final}})
